@@ -251,6 +251,25 @@ struct Interp {
   bool can_wait_version(int l) const { return l < X->c->nlocks && held_mode(l) != 3 && !holds_above(l); }
 
   /*--------------------------------------------------------------------------
+   * C12 (iv): a queue node that was handed back for reuse (it sits in this thread's cache) must not be
+   * touched by any other thread. The cache slot is a private member: read with -fno-access-control when it
+   * exists under that name, otherwise this sub-oracle is off.
+   *------------------------------------------------------------------------*/
+  void
+  cache_watch(bool call_entry)
+  {
+    if constexpr (requires { L::tls_node_.get(); }) {
+      if (call_entry) {
+        vsched::region_clear(me);  // the owner may take the node out of its cache and publish it again
+      } else if (auto *n = L::tls_node_.get(); n != nullptr) {
+        vsched::region_set(me, n, reinterpret_cast<const char *>(n) + sizeof(L), "STALE-NODE", "a queue node that was handed back for reuse (thread cache)");
+      } else {
+        vsched::region_clear(me);
+      }
+    }
+  }
+
+  /*--------------------------------------------------------------------------
    * ghost registry
    *------------------------------------------------------------------------*/
   void
@@ -271,6 +290,7 @@ struct Interp {
     g.cur_req[me] = static_cast<int>(g.reqs.size()) - 1;
     vsched::watch_set(0, g.lo, g.hi, l, arrival_cb);
     vsched::heap_lib_scope(true);
+    cache_watch(true);
   }
   bool pending_cont = false;
 
@@ -280,6 +300,7 @@ struct Interp {
   {
     auto &g = X->g[l];
     vsched::heap_lib_scope(false);
+    cache_watch(false);
     vsched::watch_clear(0);
     g.inreq[me] = 0;
     const int r = g.cur_req[me];
@@ -292,6 +313,7 @@ struct Interp {
   {
     auto &g = X->g[l];
     vsched::heap_lib_scope(false);
+    cache_watch(false);
     vsched::watch_clear(0);
     g.inreq[me] = 0;
     for (int t = 0; t < kMaxT; t++) {
@@ -431,8 +453,10 @@ struct Interp {
     unregister(l, kind);
     g.inrel[me] = true;
     vsched::heap_lib_scope(true);
+    cache_watch(true);
     action();
     vsched::heap_lib_scope(false);
+    cache_watch(false);
     g.inrel[me] = false;
     m.owns = false;
     check_nodes("release");
@@ -703,8 +727,10 @@ struct Interp {
           if (t != me && (g.mode(t) != 0 || g.inreq[t] != 0)) X->out.conv_raced = true;
         }
         vsched::heap_lib_scope(true);
+        cache_watch(true);
         auto gd = ts->i[ji].UpgradeToX();
         vsched::heap_lib_scope(false);
+        cache_watch(false);
         g.inconv[me] = false;
         // registry: SIX -> X without a gap; every S holder must be gone
         g.del(me, 2);
@@ -771,8 +797,10 @@ struct Interp {
           g.converted[me] = true;
           g.inconv[me] = true;
           vsched::heap_lib_scope(true);
+          cache_watch(true);
           gd = ts->x[jx].DowngradeToSIX();
           vsched::heap_lib_scope(false);
+          cache_watch(false);
           g.inconv[me] = false;
         }
         if (!gd) report("BOOL", "DowngradeToSIX on an owning guard returned a guard that converts to false");
